@@ -3,3 +3,7 @@ import Stingray.Model
 import Stingray.Props.C05
 import Stingray.Props.C17
 import Stingray.Props.C16
+import Stingray.Props.C13
+import Stingray.Props.C02
+import Stingray.Props.C18
+import Stingray.Props.C04
